@@ -83,10 +83,10 @@ ADDED = {
  "C12": " Later additions: deep polygons (depths to 29), longitude representations (+-2pi, +6pi, unwrapped across lon = 0), polar exact-mode polygons, vertex-count sweep (every n = 9..132 / 520, pie slices and regular n-gons)." + SEQ,
  "C13": " Later additions: deep tier (depths 9..29, ellipses 0.3..31 cells across), deep-large tier (thousands of cells across), thin rotated ellipses tens of cells long, tightness evaluated on the descendants of coarse entries. KF-1 repaired (fix f1d7abd)." + SEQ,
  "C14": " Later additions: delta_depth 5, 8, 9, 13, 17 and a sweep of every delta_depth 4..12 / 16; carry-chain cells; the two public direction helpers of lib.rs checked directly and exhaustively on every border cell x outward neighbour; huge delta_depth (21..23): internal edge, side helpers and external edge element by element; periodic coordinates." + SEQ,
- "C15": " Later additions: bulk pushes (~9000), one-tile sets, re-push SIZE SWEEP (a whole tile then every n = 1..340 / 4200 of its cells again), merge-cascade sequences (every cascade length 1..29), long scattered histories of 2^k-1..2^k+1 pushes (k = 10..16 / 20), word-size aliases (runs continued modulo 2^8, 2^16, 2^32), multi-block sequences (several complete blocks of different heights).",
+ "C15": " Later additions: bulk pushes (~9000), one-tile sets, re-push SIZE SWEEP (a whole tile then every n = 1..340 / 4200 of its cells again), merge-cascade sequences (every cascade length 1..29), long scattered histories of 2^k-1..2^k+1 pushes (k = 10..16 / 20), word-size aliases (runs continued modulo 2^8, 2^16, 2^32), multi-block sequences (several complete blocks of different heights), sibling-group shapes (all 7^4 contents of the four children of a cell).",
  "C16": " Later additions: claim-2 radii up to pi; claim 3 at the NARROWEST cells of depths 0..6 / 0..8 located by exhaustive search; carry-chain cells. KF-1 repaired (fix f1d7abd)." + SEQ,
  "C17": " Later additions: exponent sweep (sphere and plane), integer degrees, float literals of the sources." + SEQ,
- "C18": " Later additions: all ordered pairs of coordinates taken from the integer literals of the current sources; every pair of values of a 12-bit window at the same offset in i and j; periodic coordinates (every v | v<<16, every 1/2/4/8-bit pattern)." + SEQ,
+ "C18": " Later additions: all ordered pairs of coordinates taken from the integer literals of the current sources; every pair of values of a 12-bit window at the same offset in i and j; periodic coordinates (every v | v<<16, every 1/2/4/8-bit pattern), byte-permutation partners." + SEQ,
  "C19": " Later additions: weighted mean checked for every position (grid coordinates from the reference projection), carry-chain cells." + SEQ,
  "C20": " Later additions: mutual-exclusion probe (a thread held inside the constructor / at the end of the initialisation closure, a free-running second caller must block); a SAMPLED first-use stress in fresh processes (15 free-running threads on one table at a time; pairs of threads making the first use of the Layer and of the cell-size constants of one depth with a stagger, watchdog against calls that never return; labelled non-exhaustive: corroboration for hook-free windows only); a race-detector pass: 10 first-use scenarios (engine/c20miri) under miri's happens-before data-race detection, 3 / 24 scheduler seeds each, which reports an unsynchronised access in a hook-free window in every execution that performs it.",
 }
